@@ -1088,6 +1088,16 @@ class ImplEnv(ImplViz):
             return "bad-op"
         return "sched " + " | ".join(" ".join(fmt_sop(x) for x in ms) for ms in self.env.dispatcher.schedule.schedule)
 
+    def cmd_edisp(self, ts):
+        """the environment's dispatcher used directly between two steps"""
+        d = self.env.dispatcher
+        op = d.instance.jobs[int(ts[0])][int(ts[1])]
+        try:
+            d.dispatch(op, None if ts[2] == "none" else int(ts[2]))
+        except Exception:  # pylint: disable=broad-except
+            return "raise"
+        return "ok"
+
     def cmd_estep(self, ts):
         try:
             res = self.env.step((int(ts[0]), int(ts[1])))
